@@ -25,4 +25,12 @@ def handle (toks : List String) : String :=
     | some i => "SPECFAIL step_" ++ toString i ++ "_" ++ (steps.getD i "?") ++ "_" ++ "_".intercalate (res.drop i)
     | none => if res.length == steps.length then "OK" else "BADLINE arity"
 
+/-- C17: `C17 <kind> <seed> => ok | RACE … | DEADLOCK | FAIL … | CRASH …` -/
+def handle17 (toks : List String) : String :=
+  let (inp, out) := toks.span (· != "=>")
+  match inp.length, out.drop 1 with
+  | 2, ["ok"] => "OK"
+  | 2, r :: rest => "SPECFAIL " ++ "_".intercalate (r :: rest)
+  | _, _ => "BADLINE shape"
+
 end GN.Driver.C09
